@@ -194,7 +194,7 @@ func solveAll(obls []*Obligation, workdir string, timeoutS int, workers int, tho
 				o.Ms = r.ms
 				o.Output = r.output
 				switch {
-				case r.status == "error":
+				case r.status == "error" && o.Expect == "unsat":
 					o.Status = "error"
 				case o.Expect == "unsat" && r.status == "unsat":
 					o.Status = "proved"
